@@ -132,10 +132,17 @@ package stdlib
 //@ pred lb_ok(b) := lb_elems(b) >= 0 && lb_seps(b) == (if lb_elems(b) > 0 then lb_elems(b) - 1 else 0)
 
 // A sub-expression sees {0} = v0, {1} = v1 and the keys of the enclosing match
+// app3(stage, parent, v0, v1) names the value of a stage in such a sub-context: it is a function of
+// the stage, the enclosing context and the two bound values (the hypothesis "a stage is a function
+// of what it reads from its context", applied to the contents of the pooled sub-context object)
+//@ smt
+//@ (declare-fun app3 (Int Int Str Str) Str)
+//@ end
 //@ func (*subContext).Eval
 //@   requires stage != nil
 //@   modifies s.vals
 //@   ensures s.parent == old(s.parent)
+//@   ensures [assumed-subcontext] result == app3(stage, old(s.parent), v0, v1)
 //@ func (*subContext).GetMatch
 //@   pure
 //@   ensures (idx == 0 ==> result == s.vals[0]) && (idx == 1 ==> result == s.vals[1]) && (idx < 0 || idx > 1 ==> result == "")
@@ -168,8 +175,19 @@ package stdlib
 //@   loop 1 invariant sp_ok(splitter) && lb_ok(addrof(ret)) && i == sp_idx(addrof(splitter)) && i >= 0 && (splitter.next >= 0 ==> i <= splitter.next)
 //@   loop 1 invariant lb_elems(addrof(ret)) == (if i > realStart && i > 0 then (if realStart > 0 then i - realStart else i) else 0)
 
+// {@reduce arr expr [initial]}: a left fold of expr ({0} = memo, {1} = element) over the elements in
+// order; without an initial value the first element is the first memo.
+// red_from(f, c, S, D, memo, p): the result of folding the elements from offset p on into memo
+//@ smt
+//@ (define-fun-rec red_from ((rd!f Int) (rd!c Int) (rd!s Str) (rd!d Str) (rd!memo Str) (rd!p Int)) Str
+//@   (ite (< rd!p 0) rd!memo (red_from rd!f rd!c rd!s rd!d (app3 rd!f rd!c rd!memo (el_at rd!s rd!d rd!p)) (nxt_at rd!s rd!d rd!p))))
+//@ end
+//@ pred red_total(f, c, s, init) := if init == "" then red_from(f, c, s, "\x00", el_at(s, "\x00", 0), nxt_at(s, "\x00", 0)) else red_from(f, c, s, "\x00", init, 0)
 //@ func kfArrayReduce$1
-//@   loop 1 invariant sp_ok(splitter) && mapperContext != nil
+//@   ensures [fold] result == red_total((*args)[1], context, app((*args)[0], context), *initial)
+//@   loop 1 invariant sp_ok(splitter) && mapperContext != nil && mapperContext.parent == context
+//@   loop 1 invariant splitter.S == app((*args)[0], context) && splitter.Delim == "\x00"
+//@   loop 1 invariant red_from((*args)[1], context, splitter.S, splitter.Delim, memo, splitter.next) == red_total((*args)[1], context, splitter.S, *initial)
 
 // {@filter arr expr}: kept elements are separated, nothing else is written
 //@ func kfArrayFilter$1
@@ -179,10 +197,35 @@ package stdlib
 //@   assert at "sb.WriteString(item)" : lb_seps(addrof(sb)) == lb_elems(addrof(sb)) - 1
 //@   assert at "return sb.String()" : lb_ok(addrof(sb))
 //@   loop 1 invariant sp_ok(splitter) && sub != nil && lb_ok(addrof(sb)) && (needSep <==> lb_elems(addrof(sb)) > 0)
+// ... and the kept elements are exactly those for which expr ({0} = element) is truthy, in order:
+// filt_from(f, c, S, D, acc, any, p, ..): the final text when acc has been written, `any` says
+// whether an element was kept so far, and the elements from offset p on are still to be examined
+//@   ensures [kept-elements] result == filt_from((*args)[1], context, app((*args)[0], context), "\x00", "", false, 0, str_of_rune(0), "")
+//@   loop 1 invariant sub.parent == context && splitter.S == app((*args)[0], context) && splitter.Delim == "\x00"
+//@   loop 1 invariant filt_from((*args)[1], context, splitter.S, splitter.Delim, sb_content(addrof(sb)), needSep, splitter.next, str_of_rune(0), "") == filt_from((*args)[1], context, splitter.S, splitter.Delim, "", false, 0, str_of_rune(0), "")
+//@ smt
+//@ (define-fun-rec filt_from ((fl!f Int) (fl!c Int) (fl!s Str) (fl!d Str) (fl!acc Str) (fl!any Bool) (fl!p Int) (fl!sep Str) (fl!emp Str)) Str
+//@   (ite (< fl!p 0) fl!acc
+//@     (let ((fl!e (el_at fl!s fl!d fl!p)))
+//@       (let ((fl!t (not (= (str_trim (app3 fl!f fl!c fl!e fl!emp)) fl!emp))))
+//@         (filt_from fl!f fl!c fl!s fl!d (ite fl!t (ite fl!any (scat (scat fl!acc fl!sep) fl!e) (scat fl!acc fl!e)) fl!acc) (or fl!any fl!t) (nxt_at fl!s fl!d fl!p) fl!sep fl!emp)))))
+//@ end
 
-// {@for start cont incr}: at most MAX_ITERATIONS separated values
+// {@for start cont incr}: x_0 = start, x_(k+1) = incr evaluated with {0} = x_k, {1} = k; the list
+// is x_0 .. x_(n-1) where n is the first k whose condition (evaluated with {0} = x_k, {1} = k) is
+// not truthy; more than MAX_ITERATIONS values yield <INF>
+//@ smt
+//@ (define-fun-rec for_x ((fx!f Int) (fx!c Int) (fx!x0 Str) (fx!k Int)) Str
+//@   (ite (<= fx!k 0) fx!x0 (app3 fx!f fx!c (for_x fx!f fx!c fx!x0 (- fx!k 1)) (itoa (- fx!k 1)))))
+//@ (define-fun-rec for_to ((ft!f Int) (ft!c Int) (ft!x0 Str) (ft!k Int) (ft!sep Str) (ft!emp Str)) Str
+//@   (ite (<= ft!k 0) ft!emp (ite (= ft!k 1) ft!x0 (scat (scat (for_to ft!f ft!c ft!x0 (- ft!k 1) ft!sep ft!emp) ft!sep) (for_x ft!f ft!c ft!x0 (- ft!k 1))))))
+//@ end
 //@ func kfArrayFor$1
-//@   loop 1 invariant sub != nil
+//@   assert at "return sb.String()" : sb_content(addrof(sb)) == for_to((*args)[2], context, app((*args)[0], context), idx, str_of_rune(0), "") && !truthy(app3((*args)[1], context, for_x((*args)[2], context, app((*args)[0], context), idx), itoa(idx)))
+//@   loop 1 invariant sub != nil && sub.parent == context && 0 <= idx && idx <= 1000000
+//@   loop 1 invariant val == for_x((*args)[2], context, app((*args)[0], context), idx)
+//@   loop 1 invariant sb_content(addrof(sb)) == for_to((*args)[2], context, app((*args)[0], context), idx, str_of_rune(0), "")
+//@   loop 1 invariant forall j in [0, idx) :: truthy(app3((*args)[1], context, for_x((*args)[2], context, app((*args)[0], context), j), itoa(j)))
 
 // field selection: the current word starts at or before the scan position
 //@ func selectField
@@ -410,14 +453,14 @@ package stdlib
 // ---- C11: what each arithmetic / comparison operator of the function table computes ----
 // (64-bit wrap-around for the integer operators; floats as reals)
 //@ smt
-//@ (define-fun wrap64 ((wrap64!x Int)) Int (- (mod (+ wrap64!x 9223372036854775808) 18446744073709551616) 9223372036854775808))
+//@ (define-fun wrapint ((wrapint!x Int)) Int (- (mod (+ wrapint!x 9223372036854775808) 18446744073709551616) 9223372036854775808))
 //@ end
 //@ func init$sumi at ""sumi":"
-//@   ensures result == wrap64(a + b)
+//@   ensures result == wrapint(a + b)
 //@ func init$subi at ""subi":"
-//@   ensures result == wrap64(a - b)
+//@   ensures result == wrapint(a - b)
 //@ func init$multi at ""multi":"
-//@   ensures result == wrap64(a * b)
+//@   ensures result == wrapint(a * b)
 //@ func init$maxi at ""maxi":"
 //@   ensures result == (if a > b then a else b)
 //@ func init$mini at ""mini":"
@@ -512,3 +555,23 @@ package stdlib
 //@   ensures -9223372036854775808.0 <= f && f <= 9223372036854775807.0 ==> real(result) == rceil(f)
 //@ func init$floor at ""floor":"
 //@   ensures -9223372036854775808.0 <= f && f <= 9223372036854775807.0 ==> real(result) == rfloor(f)
+
+// ---- C17: {@range start stop incr} is start, start+incr, start+2*incr, ... as long as the value
+// is before stop (below it for a positive, above it for a negative increment) ----
+// range_end(s, e, d): the first value of the progression that is no longer before e;
+// range_to(s, d, i, sep, emp): the list text of the progression from s up to, but excluding, i
+//@ smt
+//@ (define-fun rg_cond ((rg!i Int) (rg!e Int) (rg!d Int)) Bool (or (and (> rg!d 0) (< rg!i rg!e)) (and (< rg!d 0) (> rg!i rg!e))))
+//@ (define-fun-rec range_end ((re!s Int) (re!e Int) (re!d Int)) Int (ite (rg_cond re!s re!e re!d) (range_end (+ re!s re!d) re!e re!d) re!s))
+//@ (define-fun-rec range_to ((rt!s Int) (rt!d Int) (rt!i Int) (rt!sep Str) (rt!emp Str)) Str
+//@   (ite (= rt!i rt!s) rt!emp (ite (= (- rt!i rt!d) rt!s) (itoa rt!s) (scat (scat (range_to rt!s rt!d (- rt!i rt!d) rt!sep rt!emp) rt!sep) (itoa (- rt!i rt!d))))))
+//@ end
+//@ pred rg_ok(a, b, c, x) := int_ok(app(a, x)) && int_ok(app(b, x)) && int_ok(app(c, x))
+//@ pred rg_valid(s, e, d) := d != 0 && !(d > 0 && s > e) && !(d < 0 && s < e)
+//@ func kfArrayRange$1
+//@   ensures [bad-type] !rg_ok(*sStart, *sStop, *sIncr, context) ==> result == "<BAD-TYPE>"
+//@   ensures [bad-value] rg_ok(*sStart, *sStop, *sIncr, context) && !rg_valid(atoi(app(*sStart, context)), atoi(app(*sStop, context)), atoi(app(*sIncr, context))) ==> result == "<VALUE>"
+//@   ensures [sequence] rg_ok(*sStart, *sStop, *sIncr, context) && rg_valid(atoi(app(*sStart, context)), atoi(app(*sStop, context)), atoi(app(*sIncr, context))) ==> result == range_to(atoi(app(*sStart, context)), atoi(app(*sIncr, context)), range_end(atoi(app(*sStart, context)), atoi(app(*sStop, context)), atoi(app(*sIncr, context))), str_of_rune(0), "")
+//@   loop 1 invariant rg_valid(start, stop, incr) && start == atoi(app(*sStart, context)) && stop == atoi(app(*sStop, context)) && incr == atoi(app(*sIncr, context)) && rg_ok(*sStart, *sStop, *sIncr, context)
+//@   loop 1 invariant range_end(i, stop, incr) == range_end(start, stop, incr) && (incr > 0 ==> start <= i) && (incr < 0 ==> i <= start)
+//@   loop 1 invariant sb_content(addrof(sb)) == range_to(start, incr, i, str_of_rune(0), "") && (i != start ==> len(sb_content(addrof(sb))) >= 1)
